@@ -243,12 +243,19 @@ func ApplyAuditLogParts(base AuditLogParts, modification string) (AuditLogParts,
 		}
 	}
 
-	// Convert map back to slice, maintaining the canonical order
+	// Convert map back to slice, maintaining the canonical order. The mandatory parts A and Z
+	// can not be modified: they are kept when the base has them.
 	result := make([]AuditLogPart, 0, len(partsMap))
+	if _, ok := partsMap[AuditLogPartHeader]; ok {
+		result = append(result, AuditLogPartHeader)
+	}
 	for _, part := range orderedAuditLogParts {
 		if _, ok := partsMap[part]; ok {
 			result = append(result, part)
 		}
+	}
+	if _, ok := partsMap[AuditLogPartEndMarker]; ok {
+		result = append(result, AuditLogPartEndMarker)
 	}
 
 	return AuditLogParts(result), nil
